@@ -154,6 +154,21 @@ type wclock struct {
 	procCh   chan struct{}
 	dead     atomic.Bool
 	exitCh   chan struct{}
+	holdNow  atomic.Int64
+	heldNow  chan struct{}
+	letGo    chan struct{}
+}
+
+// Now: the queue reads the clock in the time-to-live branch of Enqueue (for its trace line) after the timer fired
+// and before it takes the queue lock. A goroutine named in holdNow is kept there once, until letGo is closed: the
+// window processor can be run meanwhile - the two then overlap, which firing one timer after the other never does.
+func (c *wclock) Now() time.Time {
+	if g := c.holdNow.Load(); g != 0 && g == curGoid() {
+		c.holdNow.Store(0)
+		c.heldNow <- struct{}{}
+		<-c.letGo
+	}
+	return c.Clock.Now()
 }
 
 func (c *wclock) register(g int64, w *rw) { c.mu.Lock(); c.byGoid[g] = w; c.mu.Unlock() }
@@ -529,6 +544,50 @@ func (s *sys) fireTTL(w *rw) (string, error) {
 		return "", err
 	}
 	return s.finish(w, e), nil
+}
+
+// fireTTLDuringRoll: the waiter's time-to-live timer fires, the waiter is kept between the timer and the queue lock
+// (inside its clock reading), the window processor's pass runs, then the waiter goes on. Returns what the pass
+// released (the waiter itself left out) and the waiter's result; held=false if the waiter never read the clock there
+// (then the timer simply fired first).
+func (s *sys) fireTTLDuringRoll(w *rw) (rollObs string, res string, held bool, blocked bool, err error) {
+	if w.st != mParked {
+		return "", "", false, false, infraf("fireTTLDuringRoll: r%d is not parked", w.id)
+	}
+	s.wc.heldNow, s.wc.letGo = make(chan struct{}, 1), make(chan struct{})
+	s.wc.holdNow.Store(w.goid)
+	if !s.clk.Fire(w.timerID) {
+		s.wc.holdNow.Store(0)
+		return "", "", false, false, infraf("fireTTLDuringRoll: timer of r%d is not pending", w.id)
+	}
+	var early *wev
+	select {
+	case <-s.wc.heldNow:
+		held = true
+	case e := <-w.ev:
+		early = &e // returned without reading the clock: nothing to overlap with
+		s.wc.holdNow.Store(0)
+	case <-time.After(guard):
+		s.wc.holdNow.Store(0)
+		return "", "", false, false, infraf("r%d neither returned nor read the clock after its time-to-live timer fired", w.id)
+	}
+	if early != nil {
+		res = s.finish(w, *early)
+		rollObs, blocked, err = s.roll()
+		return rollObs, res, false, blocked, err
+	}
+	w.st = mDone // keep the pass's collection away from it; its result is read below
+	rollObs, blocked, err = s.roll()
+	close(s.wc.letGo)
+	w.st = mParked
+	if err != nil || blocked {
+		return rollObs, "", true, blocked, err
+	}
+	e, err := s.waitEv(w)
+	if err != nil {
+		return rollObs, "", true, false, err
+	}
+	return rollObs, s.finish(w, e), true, false, nil
 }
 
 // releaseAllHeld is used once the processor was found in a channel send: it may
